@@ -42,6 +42,13 @@ RULE = ("(a) merge: random data sets of n = 1..8 values (normal / integer-valued
         "histories of 2-3 statistics() calls on the SAME observable / System object (each must burn in once and start fresh "
         "chains unless initial chains are passed), initial chains of dtype float32 / int64 / uint8 (caller's tensor after "
         "overwrite is required only for float64); the random stream repeats all of these regimes. "
+        "also fixed-first and repeated on the random stream: SWAP (region as list / int / two sites; its value for a chain state "
+        "depends on the neighbouring row of the batch) alone, inside composites and inside Systems; Systems and "
+        "System.statistics_from_samples whose members are composites with leaves that SHARE a name but not a configuration "
+        "(SigmaZ vs SigmaZ(absolute=True), SWAP of different regions); user chains handed over as strided views of a larger "
+        "buffer (every second row / column, transposed, offset) with overwrite on/off; states carrying what earlier public "
+        "operations leave behind (stop_training set directly or by a fit that a callback stopped, a completed fit; the flag "
+        "changing between the calls of a history); burn_in / steps of 1000..6000 Gibbs steps (at and next to 1024/2048/4096). "
         "call forms rotate over keyword / positional / all-keyword, plus calls relying on the signature defaults "
         "(num_chains, burn_in, steps); torch.bernoulli is wrapped during every run to tie each draw's first Gibbs "
         "conditional to the chain states it starts from. "
@@ -50,10 +57,20 @@ ASSUMPTIONS = [
     "sampler contract: nn_state.sample returns as many chain states as requested / as initial_state holds "
     "(hypothesis of the Coq theorems; observed to hold on every wrapped call of this run)",
     "torch.var_mean computes the mean and the unbiased variance up to rounding (nan for a single value)",
-    "observables of one System have distinct names (System stores them in a dict keyed by name)",
+    "observables of one System have distinct names (System stores them in a dict keyed by name); the LEAVES of composite "
+    "members may share names (SigmaZ / SigmaZ(absolute=True), SWAP of different regions) and are generated",
+    "the k argument of every sample() call is the observation point for the burn-in / steps schedule (properties.jsonl observe_at): "
+    "an implementation that splits one draw's Gibbs steps over several sample() calls would be reported although the total is right",
+    "user chains are 2-D tensors or strided views of dense buffers; expanded (stride 0) or otherwise self-overlapping views cannot be "
+    "overwritten in place by torch and are not generated",
 ]
 
-OBS_KEYS = ["Z", "X", "Y", "absZ", "NN", "NNp", "2Z-X", "mix"]
+OBS_KEYS = ["Z", "X", "Y", "absZ", "NN", "NNp", "2Z-X", "mix",
+            # observables whose value for one chain state depends on the OTHER rows of the batch (SWAP pairs every row with
+            # its neighbour), region given as list / int / two sites; composites whose leaves SHARE a name but differ in
+            # configuration (SigmaZ vs SigmaZ(absolute=True), SWAP of different regions)
+            "SWAP0", "SWAP1", "SWAP01", "2Z+1", "3absZ", "SWAP0-1", "hSWAP1", "Z+absZ", "SWAP0+SWAP1"]
+LAYOUTS = ["contiguous", "rows2", "cols2", "transposed", "offset"]
 PAIRS16 = [(b, s) for b in range(4) for s in range(4)]
 
 
@@ -78,7 +95,95 @@ def make_obs(key):
         return 2 * SigmaZ() - SigmaX()
     if key == "mix":
         return 0.5 * SigmaX() + NeighbourInteraction() + 1.0
+    from qucumber.observables import SWAP
+    if key == "SWAP0":
+        return SWAP([0])
+    if key == "SWAP1":
+        return SWAP(1)
+    if key == "SWAP01":
+        return SWAP([0, 1])
+    if key == "2Z+1":
+        return 2 * SigmaZ() + 1
+    if key == "3absZ":
+        return 3 * SigmaZ(absolute=True)
+    if key == "SWAP0-1":
+        return SWAP([0]) - 1
+    if key == "hSWAP1":
+        return 0.5 * SWAP([1])
+    if key == "Z+absZ":
+        return SigmaZ() + SigmaZ(absolute=True)
+    if key == "SWAP0+SWAP1":
+        return SWAP([0]) + SWAP([1])
     raise ValueError(key)
+
+
+def distinct_names(keys):
+    """drop keys whose observable has the same .name as an earlier one (a System is a dict keyed by name)"""
+    out, seen = [], set()
+    for k in keys:
+        n = make_obs(k).name
+        if n not in seen:
+            seen.add(n)
+            out.append(k)
+    return out
+
+
+def layout_view(init, layout):
+    """the caller's initial chains as a strided VIEW of a larger buffer (same values, same shape, same dtype):
+    every second row / every second column / transposed storage / a row range with a storage offset"""
+    import torch
+    L, nv = init.shape
+    if layout == "rows2":
+        buf = torch.full((2 * L, nv), 7, dtype=init.dtype)
+        view = buf[::2]
+    elif layout == "cols2":
+        buf = torch.full((L, 2 * nv), 7, dtype=init.dtype)
+        view = buf[:, ::2]
+    elif layout == "transposed":
+        buf = torch.full((nv, L), 7, dtype=init.dtype)
+        view = buf.t()
+    elif layout == "offset":
+        buf = torch.full((L + 2, nv), 7, dtype=init.dtype)
+        view = buf[1:L + 1]
+    else:
+        return init
+    view.copy_(init)
+    return view
+
+
+def prepare_state(ctx, state, sspec, prep):
+    """what an earlier PUBLIC operation leaves behind on the state before statistics() is called:
+      stop_flag   -- the documented public property nn_state.stop_training set to True (what EarlyStopping does);
+      clear_flag  -- ... set back to False;
+      stopped_fit -- a real fit() ended by a callback that sets stop_training (fit never clears the flag);
+      fit         -- a real, complete fit().
+    After a fit the parameters are written back from the case description, so the case stays self-contained."""
+    import torch
+    if not prep:
+        return
+    ctx.count("state_prep:" + prep)
+    if prep == "stop_flag":
+        state.stop_training = True
+        return
+    if prep == "clear_flag":
+        state.stop_training = False
+        return
+    from qucumber.callbacks import LambdaCallback
+    nv = sspec["nv"]
+    g = torch.Generator().manual_seed(12345)
+    data = torch.randint(0, 2, (8, nv), generator=g).double()
+    kw = {}
+    if sspec["kind"] != "positive":
+        kw["input_bases"] = np.array([["Z"] * nv] * 8)
+    cbs = []
+    if prep == "stopped_fit":
+        cbs = [LambdaCallback(on_epoch_end=lambda s, ep: setattr(s, "stop_training", True))]
+    state.stop_training = False
+    state.fit(data, epochs=2, pos_batch_size=4, lr=0.01, callbacks=cbs, **kw)
+    fresh = build_state(sspec)
+    for net in state.networks:
+        for p, q in zip(getattr(state, net).parameters(), getattr(fresh, net).parameters()):
+            p.data = q.data.clone()
 
 
 def new_state(ctx, kind, nv, nh, na=1):
@@ -499,10 +604,15 @@ def stat_case(ctx, spec, state=None):
     obs_list = [make_obs(k) for k in keys]
     target = System(*obs_list) if is_system else obs_list[0]
     prev_final = None
-    for j, cs in enumerate([spec] + [dict(spec, **t) for t in spec.get("then", [])]):
-        prev_final = one_statistics_call(ctx, spec, cs, j, state, is_system, keys, obs_list, target, prev_final)
-        if prev_final is None:
-            return
+    try:
+        for j, (cs, prep) in enumerate([(spec, spec.get("prep"))] +
+                                       [(dict(spec, **t), t.get("prep")) for t in spec.get("then", [])]):
+            prepare_state(ctx, state, spec["state"], prep)
+            prev_final = one_statistics_call(ctx, spec, cs, j, state, is_system, keys, obs_list, target, prev_final)
+            if prev_final is None:
+                return
+    finally:
+        state.stop_training = False          # states are shared between cases
 
 
 def one_statistics_call(ctx, case, spec, call_index, state, is_system, keys, obs_list, target, prev_final):
@@ -515,6 +625,10 @@ def one_statistics_call(ctx, case, spec, call_index, state, is_system, keys, obs
         nc, burn, steps = sig_defaults(target.statistics)
     dtype_name = spec.get("init_dtype", "float64")
     init = None if spec["init"] is None else torch.tensor(spec["init"], dtype=torch.double).to(getattr(torch, DTYPES[dtype_name]))
+    layout = spec.get("init_layout", "contiguous") if init is not None else "contiguous"
+    if init is not None:
+        init = layout_view(init, layout)
+        ctx.count("init_layout:" + layout + ("" if init.is_contiguous() else "(non-contiguous)"))
     init_before = None if init is None else init.clone()
     L = None if init is None else int(init.shape[0])
     if call_index:
@@ -572,7 +686,11 @@ def one_statistics_call(ctx, case, spec, call_index, state, is_system, keys, obs
     allv = [x for v in vals[0] for x in v] if vals else []
     nontriv = draws >= 2 and (len(set(allv)) > 1 or not vals)
     ctx.case({"part": spec["part"], "state": spec["state"]["kind"], "obs": keys, "S": S, "nc": nc, "burn": burn, "steps": steps,
-              "L": L, "ow": ow, "form": form, "dtype": dtype_name, "call": call_index}, nontrivial=nontriv)
+              "L": L, "ow": ow, "form": form, "dtype": dtype_name, "call": call_index, "layout": layout,
+              "stop_flag": bool(state.stop_training)}, nontrivial=nontriv)
+    ctx.count("stop_training_flag:" + ("set" if state.stop_training else "clear"))
+    ctx.count("k_range:" + ("burn>=2048" if burn >= 2048 else "burn>=500" if burn >= 500 else "burn<500") +
+              ("/steps>=2048" if steps >= 2048 else "/steps>=100" if steps >= 100 else ""))
     ctx.count("num_observables=%d" % len(obs_list) if is_system else "single_observable")
     ctx.count("size:" + ("S<=12" if S <= 12 else "S<=1000" if S <= 1000 else "S>1000"))
     if init is not None:
@@ -672,6 +790,35 @@ def from_samples_case(ctx, state, sspec, key, rows):
                     all(near(rr[k], r[k]) for k in ("mean", "variance", "std_error")) and rr["num_samples"] == r["num_samples"], case)
 
 
+def from_samples_system_case(ctx, state, sspec, keys, rows):
+    """System.statistics_from_samples on a set of observables: each gets what it gets alone on the same rows"""
+    import torch
+    from qucumber.observables import System
+    keys = distinct_names(keys)
+    obs = [make_obs(k) for k in keys]
+    samples = torch.tensor(ctx.rng.integers(0, 2, size=(rows, sspec["nv"])).astype(float), dtype=torch.double)
+    case = {"part": "from_samples_system", "state": sspec, "obs_list": keys, "rows": rows, "samples": samples.tolist()}
+    ctx.case({"part": "from_samples_system", "state": sspec["kind"], "obs": keys, "rows": rows, "s0": samples[:8].tolist()},
+             nontrivial=rows >= 2 and len(keys) >= 2)
+    ctx.count("from_samples_system:observables=%d" % len(keys))
+    ok, rs = ctx.call("System.statistics_from_samples", case, System(*obs).statistics_from_samples, state, samples.clone())
+    if not ok:
+        return
+    ctx.require("System.statistics_from_samples returns exactly one dictionary per observable",
+                isinstance(rs, dict) and set(rs.keys()) == set(o.name for o in obs), case)
+    for o in obs:
+        vals = [float(x) for x in o.apply(state, samples.clone()).reshape(-1).tolist()]
+        rm, rv, rse, rn = one_pass(vals)
+        scale = max([1.0] + [abs(x) for x in vals])
+        rr = rs.get(o.name) if isinstance(rs, dict) else None
+        good = rr is not None and near(rr["mean"], rm, scale) and near(rr["variance"], rv, scale * scale) \
+            and near(rr["std_error"], rse, scale) and rr["num_samples"] == rn
+        ctx.require("System.statistics_from_samples gives each observable the one-pass statistics of its own values", good, case,
+                    {"observable": o.name, "system": None if rr is None else {k: float(v) for k, v in rr.items()},
+                     "one_pass": [rm, rv, rse, rn]})
+    ctx.traces += 1
+
+
 def make_states(ctx, copies):
     out = []
     for _ in range(copies):
@@ -704,6 +851,10 @@ def run_statistics(ctx, Smax, sweeps, deadline=None):
                             "form": ("kw", "positional", "allkw")[(idx // 5) % 3]}
                     if idx % 11 == 0:   # a history: further calls on the same observable object
                         spec["then"] = [{"torch_seed": ctx.torch_seed()} for _ in range(1 + idx % 2)]
+                        if idx % 3 == 0:
+                            spec["then"][0]["prep"] = "stop_flag"
+                    elif idx % 13 == 0:
+                        spec["prep"] = ("stop_flag", "stopped_fit", "fit")[(idx // 13) % 3]
                     stat_case(ctx, spec, st)
             if deadline and time.time() > deadline:
                 return
@@ -718,7 +869,10 @@ def run_statistics(ctx, Smax, sweeps, deadline=None):
                 spec = {"part": part, "state": sspec, "S": S, "nc": int(ctx.rng.integers(0, S + 3)), "burn": burn, "steps": steps,
                         "init": rand_init(ctx, L, sspec["nv"]), "overwrite": ow, "torch_seed": ctx.torch_seed(),
                         "form": ("kw", "positional", "allkw")[idx % 3],
-                        "init_dtype": ("float64", "float32", "float64", "int64", "float64", "uint8")[(idx // 2) % 6]}
+                        "init_dtype": ("float64", "float32", "float64", "int64", "float64", "uint8")[(idx // 2) % 6],
+                        "init_layout": LAYOUTS[int(ctx.rng.integers(0, len(LAYOUTS)))] if idx % 2 else "contiguous"}
+                if idx % 9 == 0:
+                    spec["prep"] = ("stop_flag", "stopped_fit", "fit")[(idx // 9) % 3]
                 if part == "system":
                     spec["obs_list"] = system_keys(ctx)
                 else:
@@ -736,6 +890,10 @@ def run_statistics(ctx, Smax, sweeps, deadline=None):
                         "form": ("kw", "positional", "allkw")[idx % 3]}
                 if idx % 5 == 0:        # a history: further calls on the same System object
                     spec["then"] = [{"torch_seed": ctx.torch_seed()} for _ in range(1 + idx % 2)]
+                    if idx % 2 == 0:
+                        spec["then"][-1]["prep"] = "stop_flag"
+                elif idx % 7 == 0:
+                    spec["prep"] = ("stop_flag", "stopped_fit", "fit")[(idx // 7) % 3]
                 stat_case(ctx, spec, st)
     # default arguments (num_chains / burn_in / steps as the signature declares them), with and without initial chains
     for S in range(1, Smax + 1, 1 if ctx.thorough else 2):
@@ -770,10 +928,31 @@ def run_statistics(ctx, Smax, sweeps, deadline=None):
             spec["obs"] = str(ctx.rng.choice(["Z", "NN", "absZ"]))
         stat_case(ctx, spec, st)
         from_samples_case(ctx, st, sspec, "Z", int(np.exp(ctx.rng.uniform(np.log(1000), np.log(25000)))))
+    # random long burn-in / steps (log-uniform up to 6000 Gibbs steps), few chains
+    for j in range(6 if ctx.thorough else 3):
+        st, sspec, _k = pick(idx)
+        idx += 1
+        big = int(np.exp(ctx.rng.uniform(np.log(300), np.log(6000))))
+        near2 = int(ctx.rng.choice([1024, 2048, 4096])) + int(ctx.rng.integers(-1, 2))
+        burn, steps = [(big, int(ctx.rng.integers(0, 3))), (int(ctx.rng.integers(0, 3)), min(big, 2500)), (near2, 1)][j % 3]
+        S = int(ctx.rng.integers(2, 6))
+        nc = int(ctx.rng.integers(1, 4))
+        if steps > 100:
+            nc = max(nc, -(-S // 3))            # at most 3 draws with many steps between them
+        part = "system" if j % 2 else "statistics"
+        spec = {"part": part, "state": sspec, "S": S, "nc": nc, "burn": burn, "steps": steps, "init": None, "overwrite": False,
+                "torch_seed": ctx.torch_seed(), "form": ("kw", "positional", "allkw")[j % 3]}
+        if part == "system":
+            spec["obs_list"] = distinct_names([str(x) for x in ctx.rng.choice(["Z", "NN", "absZ", "2Z+1"], size=int(ctx.rng.integers(1, 3)), replace=False)])
+        else:
+            spec["obs"] = str(ctx.rng.choice(["Z", "NN", "absZ"]))
+        stat_case(ctx, spec, st)
     # statistics_from_samples directly (1 row: nan variance)
     for i, (st, sspec) in enumerate(states):
         for rows in (1, 2, 3, 7):
             from_samples_case(ctx, st, sspec, OBS_KEYS[(i + rows) % len(OBS_KEYS)], rows)
+        for rows in (2, 6, 11):
+            from_samples_system_case(ctx, st, sspec, system_keys(ctx, int(ctx.rng.integers(2, 5))), rows)
 
 
 def system_keys(ctx, k=None):
@@ -783,7 +962,10 @@ def system_keys(ctx, k=None):
     keys = [str(x) for x in ctx.rng.choice(OBS_KEYS, size=k, replace=False)]
     if k >= 2 and "2Z-X" not in keys and "mix" not in keys and ctx.rng.random() < 0.6:
         keys[-1] = "2Z-X"
-    return keys
+    if k >= 2 and ctx.rng.random() < 0.5:
+        # two members that share a LEAF name but not its configuration, one member that depends on neighbouring rows
+        keys[:2] = [("2Z+1", "3absZ"), ("SWAP0-1", "hSWAP1"), ("Z", "Z+absZ"), ("SWAP01", "3absZ")][int(ctx.rng.integers(0, 4))]
+    return distinct_names(keys)
 
 
 def run_fixed(ctx):
@@ -793,9 +975,12 @@ def run_fixed(ctx):
     states = make_states(ctx, 1)
     (sp, sp_spec), (sc, sc_spec), (sd, sd_spec) = states[0], states[1], states[2]
 
-    def spec(part, st_spec, obs, S, nc, burn, steps, init=None, ow=False, form="kw", dtype="float64", then=None):
+    def spec(part, st_spec, obs, S, nc, burn, steps, init=None, ow=False, form="kw", dtype="float64", then=None,
+             layout="contiguous", prep=None):
         d = {"part": part, "state": st_spec, "S": S, "nc": nc, "burn": burn, "steps": steps, "init": init, "overwrite": ow,
-             "form": form, "init_dtype": dtype, "torch_seed": ctx.torch_seed()}
+             "form": form, "init_dtype": dtype, "torch_seed": ctx.torch_seed(), "init_layout": layout}
+        if prep:
+            d["prep"] = prep
         d["obs_list" if part == "system" else "obs"] = obs
         if then is not None:
             d["then"] = [dict(t, torch_seed=ctx.torch_seed()) for t in then]
@@ -811,7 +996,47 @@ def run_fixed(ctx):
         (sp, spec("statistics", sp_spec, "Z", 9000, 3, 2, 1, init=rand_init(ctx, 5000, sp_spec["nv"]), ow=True, dtype="float32")),
         (sc, spec("system", sc_spec, ["NNp", "Z"], 16385, 7, 1, 1, init=rand_init(ctx, 8193, sc_spec["nv"]), ow=True)),
     ]
+    def ri(st_spec, L):
+        return rand_init(ctx, L, st_spec["nv"])
     few = [
+        # observables that depend on the neighbouring rows of the batch (SWAP), alone and in Systems; composites whose
+        # leaves share a name but not a configuration; each System member is compared with the observable alone
+        (sp, spec("system", sp_spec, ["SWAP0", "Z"], 24, 12, 3, 1)),
+        (sc, spec("system", sc_spec, ["2Z+1", "3absZ", "SWAP0-1", "hSWAP1"], 16, 8, 2, 1)),
+        (sd, spec("system", sd_spec, ["Z", "Z+absZ", "SWAP01"], 12, 6, 1, 1, form="positional")),
+        (sp, spec("system", sp_spec, ["SWAP0+SWAP1", "absZ", "3absZ"], 18, 9, 2, 2, init=ri(sp_spec, 9), ow=True)),
+        (sc, spec("statistics", sc_spec, "SWAP1", 20, 10, 2, 1)),
+        (sd, spec("statistics", sd_spec, "SWAP0-1", 9, 4, 1, 1, then=[{}])),
+        (sp, spec("statistics", sp_spec, "Z+absZ", 10, 5, 1, 0)),
+        # the caller's initial chains as non-contiguous / offset VIEWS of a larger buffer, overwrite on and off
+        (sp, spec("statistics", sp_spec, "Z", 8, 0, 2, 1, init=ri(sp_spec, 4), ow=True, layout="rows2")),
+        (sc, spec("statistics", sc_spec, "X", 8, 0, 2, 1, init=ri(sc_spec, 4), ow=True, layout="cols2")),
+        (sd, spec("statistics", sd_spec, "NN", 6, 0, 1, 2, init=ri(sd_spec, 3), ow=True, layout="transposed")),
+        (sp, spec("system", sp_spec, ["Z", "NN"], 8, 0, 2, 1, init=ri(sp_spec, 4), ow=True, layout="transposed")),
+        (sc, spec("system", sc_spec, ["Z"], 9, 0, 1, 1, init=ri(sc_spec, 3), ow=True, layout="rows2", form="positional")),
+        (sd, spec("system", sd_spec, ["2Z-X"], 6, 0, 2, 0, init=ri(sd_spec, 3), ow=True, layout="cols2")),
+        (sp, spec("statistics", sp_spec, "absZ", 7, 0, 2, 1, init=ri(sp_spec, 5), ow=False, layout="cols2")),
+        (sc, spec("system", sc_spec, ["NN"], 5, 0, 1, 1, init=ri(sc_spec, 2), ow=False, layout="transposed")),
+        (sp, spec("statistics", sp_spec, "Z", 6, 0, 1, 1, init=ri(sp_spec, 3), ow=True, layout="offset")),
+        (sp, spec("statistics", sp_spec, "Z", 6, 0, 1, 1, init=ri(sp_spec, 3), ow=True, layout="rows2", dtype="float32")),
+        # what earlier public operations leave on the state: stop_training set (directly / by a fit a callback stopped),
+        # a completed fit; and the flag changing between the calls of a history
+        (sp, spec("statistics", sp_spec, "Z", 20, 5, 2, 1, prep="stop_flag")),
+        (sc, spec("system", sc_spec, ["Z", "X"], 20, 5, 2, 1, prep="stop_flag")),
+        (sd, spec("statistics", sd_spec, "NN", 9, 2, 1, 1, prep="stop_flag", form="positional")),
+        (sp, spec("system", sp_spec, ["NN"], 7, 3, 1, 2, prep="stopped_fit", init=ri(sp_spec, 3), ow=True)),
+        (sc, spec("statistics", sc_spec, "2Z-X", 8, 4, 2, 1, prep="stopped_fit")),
+        (sd, spec("system", sd_spec, ["Z", "NN"], 6, 2, 1, 1, prep="stopped_fit")),
+        (sp, spec("statistics", sp_spec, "X", 6, 2, 2, 1, prep="fit", then=[{"prep": "stop_flag"}, {"prep": "clear_flag"}])),
+        (sc, spec("system", sc_spec, ["mix", "Z"], 6, 3, 1, 1, then=[{"prep": "stop_flag"}, {}])),
+        # long burn-in / many steps between draws (at and around powers of two), single observables and Systems
+        (sp, spec("statistics", sp_spec, "Z", 4, 2, 2048, 2)),
+        (sc, spec("statistics", sc_spec, "Z", 4, 2, 5000, 1)),
+        (sp, spec("statistics", sp_spec, "NN", 6, 2, 1, 2048)),
+        (sp, spec("system", sp_spec, ["Z"], 4, 2, 4097, 3)),
+        (sd, spec("system", sd_spec, ["Z", "NN"], 4, 2, 2049, 0)),
+        (sc, spec("system", sc_spec, ["absZ"], 6, 3, 0, 2049, init=ri(sc_spec, 3), ow=True)),
+        (sp, spec("statistics", sp_spec, "Z", 3, 3, 1000, 1, form="defaults")),
         # one / zero observables, with and without initial chains
         (sp, spec("system", sp_spec, ["Z"], 5, 2, 3, 1, init=rand_init(ctx, 3, sp_spec["nv"]), ow=True)),
         (sc, spec("system", sc_spec, ["X"], 6, 0, 2, 1, init=rand_init(ctx, 4, sc_spec["nv"]), ow=False, dtype="float32")),
@@ -838,6 +1063,9 @@ def run_fixed(ctx):
     for st, sspec, key, rows in ((sp, sp_spec, "Z", 4097), (sc, sc_spec, "Z", 5000), (sd, sd_spec, "NN", 8193),
                                  (sp, sp_spec, "Z", 20000), (sc, sc_spec, "X", 5000)):
         from_samples_case(ctx, st, sspec, key, rows)
+    for st, sspec, ks, rows in ((sp, sp_spec, ["2Z+1", "3absZ", "SWAP0-1", "hSWAP1"], 12), (sc, sc_spec, ["Z", "Z+absZ", "SWAP01"], 9),
+                                (sd, sd_spec, ["SWAP0+SWAP1", "absZ", "3absZ", "X"], 7), (sp, sp_spec, ["SWAP1"], 5), (sc, sc_spec, [], 4)):
+        from_samples_system_case(ctx, st, sspec, ks, rows)
     # the merge routine on long chunks
     data = ctx.rng.normal(size=5000)
     merge_case(ctx, data, [4096, 904], steps_vs_model=False)
